@@ -47,6 +47,8 @@ def kind_of(e: BaseException) -> str:
     c = common.err_class(e)
     msg = str(e)
     if c == "runtime":
+        if "incomplete message" in msg:
+            return "incomplete"
         return "shortbytes" if "not enough binary data" in msg else "runtime:" + msg[:40]
     if c != "value":
         return c
@@ -68,8 +70,10 @@ def kind_of(e: BaseException) -> str:
         return "unterminated"
     if "duplicated key" in msg:
         return "dupkey"
-    if "incomplete message" in msg:
-        return "short"
+    if " count: " in msg and "invalid" in msg:
+        return "badcount"
+    if "invalid relay flag" in msg:
+        return "badflag"
     if "invalid checksum" in msg:
         return "badchecksum"
     if "command" in msg:
@@ -153,6 +157,51 @@ def _xkey_parse(d):
     return BIP32KeyData.parse(d, check_validity=False)
 
 
+def _r_netaddr(a):
+    return f"{int(a.services)}/{hx(a.ip.packed)}/{a.port}"
+
+
+def _r_inventory(i):
+    return f"{int(i.type_code)}:{hx(i.hash)}"
+
+
+def _r_version(v):
+    r = "-" if v.relay is None else ("1" if v.relay else "0")
+    return (f"{v.version}/{int(v.services)}/{v.timestamp}/{_r_netaddr(v.addr_recv)}/{_r_netaddr(v.addr_from)}/"
+            f"{v.nonce}/{hx(v.user_agent)}/{v.start_height}/{r}")
+
+
+def _p2p(name):
+    import btclib.p2p as P
+    cls = getattr(P, name)
+    return lambda d: cls.parse(d, check_validity=False)
+
+
+def _ser(o):
+    return o.serialize(check_validity=False)
+
+
+def _len_ser(o):
+    return len(o.serialize(check_validity=False))
+
+
+P2P_CLASSES = {
+    "msg.parse": (_p2p("Message"), lambda m: f"{hx(m.magic)}/{hx(m.command.encode('ascii'))}/{hx(m.payload)}", _ser, _len_ser, None),
+    "ping.parse": (_p2p("Ping"), lambda o: str(o.nonce), _ser, _len_ser, None),
+    "feefilter.parse": (_p2p("FeeFilter"), lambda o: str(o.feerate), _ser, _len_ser, None),
+    "netaddr.parse": (_p2p("NetworkAddress"), _r_netaddr, _ser, _len_ser, None),
+    "addr.parse": (_p2p("Addr"), lambda o: join_with(";", [f"{a.timestamp}@{_r_netaddr(a.address)}" for a in o.addresses]),
+                   _ser, _len_ser, None),
+    "inventory.parse": (_p2p("Inventory"), _r_inventory, _ser, _len_ser, None),
+    "inv.parse": (_p2p("Inv"), lambda o: join_with(";", [_r_inventory(i) for i in o.items]), _ser, _len_ser, None),
+    "getheaders.parse": (_p2p("GetHeaders"),
+                         lambda o: f"{o.version}/[{join_with(',', [hx(h) for h in o.locator])}]/{hx(o.hash_stop)}",
+                         _ser, _len_ser, None),
+    "headers.parse": (_p2p("Headers"), lambda o: join_with(";", [r_header(h) for h in o.headers]), _ser, _len_ser, None),
+    "version.parse": (_p2p("Version"), _r_version, _ser, _len_ser, None),
+}
+
+
 CLASSES = {
     # op: (parse(data)->obj, render, serialize(obj), size(obj), extra(obj))
     "xkey.parse": (_xkey_parse, _r_xkey, lambda o: o.serialize(check_validity=False), lambda o: 78, None),
@@ -174,6 +223,10 @@ CLASSES = {
                     lambda o: o.serialize(include_witness=True, check_validity=False), lambda o: o.size,
                     _block_extra),
 }
+
+
+CLASSES.update(P2P_CLASSES)
+OCTETS_ONLY = {"version.parse"}
 
 
 def run_class(op: str, mode: str, b: bytes) -> str:
@@ -252,11 +305,11 @@ def _o_wire_canonical(w):
     parse, _render, ser, size, _ = CLASSES[op]
     s = BytesIO(b)
     try:
-        obj = parse(s)
+        obj = parse(b) if op in OCTETS_ONLY else parse(s)
     except Exception as e:  # noqa: BLE001
         c = common.err_class(e)
         return c in ("value", "runtime"), f"{op} refused with {type(e).__name__}: {str(e)[:80]}"
-    used = len(b) - len(s.read())
+    used = len(b) if op in OCTETS_ONLY else len(b) - len(s.read())
     try:
         out = ser(obj)
     except Exception as e:  # noqa: BLE001
@@ -279,6 +332,8 @@ def _o_wire_roundtrip(w):
     """T1 on the real code: parse(serialize(x) ‖ rest) == (x, rest) for the object x = parse(b)."""
     op, b, rest = w["op"], bytes.fromhex(w["b"]), bytes.fromhex(w.get("rest", ""))
     parse, _render, ser, _size, _ = CLASSES[op]
+    if op in OCTETS_ONLY:
+        rest = b""
     try:
         x = parse(b)
     except Exception as e:  # noqa: BLE001
@@ -289,10 +344,10 @@ def _o_wire_roundtrip(w):
         return False, f"{op}: serialize(parse(b)) raised {type(e).__name__}: {e}"
     s = BytesIO(out + rest)
     try:
-        y = parse(s)
+        y = parse(out) if op in OCTETS_ONLY else parse(s)
     except Exception as e:  # noqa: BLE001
         return False, f"{op}: parse(serialize(x)) raised {type(e).__name__}: {e}"
-    left = s.read()
+    left = b"" if op in OCTETS_ONLY else s.read()
     return (y == x and left == rest), f"{op}: equal={y == x} rest_ok={left == rest}"
 
 
@@ -342,9 +397,12 @@ def vi(n):
 LEN_CHOICES = [0, 0, 1, 1, 2, 5, 20, 22, 34, 75, 76, 107, 252, 253, 254, 255, 256, 520]
 
 
+BIG_P = 0.004   # probability of a 64 KiB script (CompactSize width 3 -> 5); raised in the thorough tier
+
+
 def g_script(rng, big_ok=False):
     n = rng.choice(LEN_CHOICES)
-    if big_ok and rng.random() < 0.02:
+    if big_ok and rng.random() < BIG_P:
         n = rng.choice([65535, 65536])
     return common.rand_bytes(rng, n) if n < 600 else bytes([rng.getrandbits(8)]) * n
 
@@ -455,7 +513,102 @@ def p_xkey(rng):
             .add("hash", common.rand_bytes(rng, 32)).add("bytes", key))
 
 
-GENS = {"xkey.parse": p_xkey, "varbytes.parse": lambda r: p_varbytes(r, True), "outpoint.parse": p_outpoint, "witness.parse": p_witness,
+def p_msg(rng):
+    cmd = rng.choice([b"version", b"verack", b"ping", b"inv", b"sendaddrv2x", b"", b"twelve_bytes", common.rand_bytes(rng, 3)])
+    if rng.random() < 0.15:
+        cmd = bytes(rng.randrange(32, 127) for _ in range(rng.randrange(0, 13)))
+    pay = common.rand_bytes(rng, rng.choice([0, 0, 1, 8, 36, 300]))
+    bad = rng.random()
+    raw = cmd.ljust(12, b"\x00")
+    if bad < 0.08:
+        raw = cmd[:5] + b"\x00" + b"x" + b"\x00" * 12
+        raw = raw[:12]                                      # text after the padding
+    elif bad < 0.14:
+        raw = (bytes([rng.choice([1, 31, 127, 200])]) + cmd).ljust(12, b"\x00")[:12]   # non-printable
+    chk = h256(pay)[:4]
+    if 0.14 <= bad < 0.2:
+        chk = bytes([chk[0] ^ 1]) + chk[1:]
+    ln = len(pay)
+    if 0.2 <= bad < 0.25:
+        ln = rng.choice([4_000_001, 2**32 - 1, len(pay) + 1])
+    return (Parts().add("hash", rng.choice([bytes.fromhex("f9beb4d9"), common.rand_bytes(rng, 4)])).add("bytes", raw)
+            .add("int", ln.to_bytes(4, "little")).add("hash", chk).add("bytes", pay))
+
+
+def p_netaddr(rng):
+    ip = rng.choice([b"\x00" * 16, b"\x00" * 10 + b"\xff\xff" + common.rand_bytes(rng, 4), common.rand_bytes(rng, 16)])
+    return (Parts().add("int", rng.choice([0, 1, 1033, 2**64 - 1, rng.getrandbits(64)]).to_bytes(8, "little"))
+            .add("hash", ip).add("int", rng.choice([0, 8333, 65535, rng.getrandbits(16)]).to_bytes(2, "big")))
+
+
+def _count(rng, small, cap):
+    r = rng.random()
+    if r < 0.9:
+        return rng.choice(small)
+    return rng.choice([cap, cap + 1, 252, 253])
+
+
+def p_addr(rng):
+    n = _count(rng, [0, 1, 2, 3], 1000)
+    p = Parts().add("count", vi(n))
+    for _ in range(n if n < 300 else 3):
+        p.add("int", g_u32(rng).to_bytes(4, "little")).extend(p_netaddr(rng))
+    return p
+
+
+def p_inventory(rng):
+    t = rng.choice([0, 1, 2, 3, 4, 5, 0x40000001, 0x40000002, 2**32 - 1, rng.getrandbits(32)])
+    return Parts().add("int", t.to_bytes(4, "little")).add("hash", common.rand_bytes(rng, 32))
+
+
+def p_inv(rng):
+    n = _count(rng, [0, 1, 2, 5], 50000)
+    p = Parts().add("count", vi(n))
+    for _ in range(n if n < 300 else 2):
+        p.extend(p_inventory(rng))
+    return p
+
+
+def p_getheaders(rng):
+    n = _count(rng, [0, 1, 2, 10], 101)
+    n = min(n, 253)
+    p = Parts().add("int", rng.choice([70016, -1, 0, -2**31, 2**31 - 1]).to_bytes(4, "little", signed=True)).add("count", vi(n))
+    for _ in range(n):
+        p.add("hash", common.rand_bytes(rng, 32))
+    return p.add("hash", rng.choice([b"\x00" * 32, common.rand_bytes(rng, 32)]))
+
+
+def p_headers(rng):
+    n = _count(rng, [0, 1, 2, 3], 2000)
+    p = Parts().add("count", vi(n))
+    for k in range(n if n < 300 else 2):
+        p.extend(p_header(rng)).add("count", b"\x01" if rng.random() < 0.04 else b"\x00")
+    return p
+
+
+def p_version(rng):
+    p = (Parts().add("int", rng.choice([70016, 0, -1, 2**31 - 1]).to_bytes(4, "little", signed=True))
+         .add("int", rng.getrandbits(rng.choice([1, 12, 64])).to_bytes(8, "little"))
+         .add("int", rng.choice([0, 1700000000, -1, 2**63 - 1, -2**63]).to_bytes(8, "little", signed=True)))
+    p.extend(p_netaddr(rng)).extend(p_netaddr(rng)).add("int", rng.getrandbits(64).to_bytes(8, "little"))
+    ua = rng.choice([b"", b"/Satoshi:25.0.0/", common.rand_bytes(rng, 256), common.rand_bytes(rng, 257)])
+    p.add("len", vi(len(ua))).add("bytes", ua)
+    p.add("int", rng.choice([0, 800000, -1]).to_bytes(4, "little", signed=True))
+    r = rng.random()
+    if r < 0.3:
+        p.add("marker", b"\x01")
+    elif r < 0.55:
+        p.add("marker", b"\x00")
+    elif r < 0.65:
+        p.add("marker", bytes([rng.choice([2, 3, 255])]))
+    return p
+
+
+GENS = {"msg.parse": p_msg, "ping.parse": lambda r: Parts().add("int", r.getrandbits(r.choice([1, 64])).to_bytes(8, "little")),
+        "feefilter.parse": lambda r: Parts().add("int", r.choice([0, 1000, -1, 2**63 - 1, -2**63]).to_bytes(8, "little", signed=True)),
+        "netaddr.parse": p_netaddr, "addr.parse": p_addr, "inventory.parse": p_inventory, "inv.parse": p_inv,
+        "getheaders.parse": p_getheaders, "headers.parse": p_headers, "version.parse": p_version,
+        "xkey.parse": p_xkey, "varbytes.parse": lambda r: p_varbytes(r, True), "outpoint.parse": p_outpoint, "witness.parse": p_witness,
         "txin.parse": p_txin, "txout.parse": p_txout, "tx.parse": p_tx, "header.parse": p_header,
         "block.parse": p_block}
 
@@ -556,7 +709,9 @@ def seeds():
 
 # ------------------------------------------------------------------ run
 def run(ctx):
+    global BIG_P
     rng = ctx.rng
+    BIG_P = 0.02 if ctx.tier == "thorough" else 0.004
     # ---- CompactSize (spine slice)
     ints = [v for v in common.boundary_ints(rng, extra=[0xFD, 0xFFFF, 0xFFFFFFFF, 2**64 - 1, var_int.MAX_SIZE])]
     for i in ints:
@@ -586,7 +741,9 @@ def run(ctx):
     ctx.stream("varint.parse", lines)
 
     # ---- wire classes: valid objects, mutations, vendored seeds
-    per_class = {"xkey.parse": 150, "varbytes.parse": 300, "outpoint.parse": 200, "witness.parse": 400, "txin.parse": 400,
+    per_class = {"msg.parse": 400, "ping.parse": 60, "feefilter.parse": 60, "netaddr.parse": 100, "addr.parse": 150,
+                 "inventory.parse": 80, "inv.parse": 150, "getheaders.parse": 150, "headers.parse": 150,
+                 "version.parse": 250, "xkey.parse": 150, "varbytes.parse": 300, "outpoint.parse": 200, "witness.parse": 400, "txin.parse": 400,
                  "txout.parse": 400, "tx.parse": 1200, "header.parse": 200, "block.parse": 120}
     sd = seeds()
     for op, gen in GENS.items():
@@ -605,7 +762,7 @@ def run(ctx):
             else:
                 b = mutate(p, rng)
                 cls = "mutated"
-            mode = "s" if rng.random() < 0.6 else "o"
+            mode = "s" if rng.random() < 0.6 and op not in OCTETS_ONLY else "o"
             lines.append(f"{op} {mode} {hx(b)}")
             ctx.count("c05.input_class", f"{op}:{cls}")
             pool.append(b)
